@@ -17,7 +17,7 @@ claimed.update({
 na = {
  "C05": "check not built yet in this session (crash-cut enumeration planned, DESIGN 5.C05)",
  "C06": "check not built yet in this session (schedule exploration via verif yield hooks planned, DESIGN 5.C06)",
- "C15": "check not built yet in this session", "C16": "check not built yet in this session",
+ "C13": "check not built yet in this session", "C15": "check built (correspondence with the executable change-set specification); theorems pending, not claimed yet", "C16": "check not built yet in this session",
  "C17": "check not built yet in this session", "C18": "check not built yet in this session",
  "C19": "check not built yet in this session", "C20": "check not built yet in this session",
 }
